@@ -179,9 +179,67 @@ func c15Project(out string, err error, reads map[string]int) Obs {
 	return L(A("ok"), mark(c15P, true), mark(c15C, false), mark(c15L, false), rd)
 }
 
+// which file a layout name means depends on the files that exist now: a layout beside the page wins over layouts/, and
+// comes and goes with that file - a long-lived engine follows, render by render, what a new engine would do
+func c15LayoutResolution(r *Run) {
+	type step struct {
+		what string
+		do   func(m fstest.MapFS, t time.Time)
+	}
+	put := func(name, text string) func(m fstest.MapFS, t time.Time) {
+		return func(m fstest.MapFS, t time.Time) { m[name] = &fstest.MapFile{Data: []byte(text), ModTime: t} }
+	}
+	del := func(name string) func(m fstest.MapFS, t time.Time) {
+		return func(m fstest.MapFS, t time.Time) { delete(m, name) }
+	}
+	steps := []step{
+		{"initial files", func(m fstest.MapFS, t time.Time) {
+			put("pages/p.vuego", "---\nlayout: post\n---\n<p>page</p>")(m, t)
+			put("docs/d.vuego", "---\nlayout: post\n---\n<p>doc</p>")(m, t)
+			put("layouts/post.vuego", `<main class="global" v-html="content"></main>`)(m, t)
+		}},
+		{"create pages/post.vuego", put("pages/post.vuego", `<main class="local-1" v-html="content"></main>`)},
+		{"edit pages/post.vuego", put("pages/post.vuego", `<main class="local-2" v-html="content"></main>`)},
+		{"create docs/post.vuego", put("docs/post.vuego", `<main class="docs-local" v-html="content"></main>`)},
+		{"delete pages/post.vuego", del("pages/post.vuego")},
+		{"edit layouts/post.vuego", put("layouts/post.vuego", `<main class="global-2" v-html="content"></main>`)},
+		{"delete docs/post.vuego", del("docs/post.vuego")},
+		{"create pages/post.vuego again", put("pages/post.vuego", `<main class="local-3" v-html="content"></main>`)},
+	}
+	for _, entry := range []string{"Load.Render", "RenderFile"} {
+		m := fstest.MapFS{}
+		long := vuego.NewFS(m)
+		var hist []string
+		for i, st := range steps {
+			st.do(m, time.Unix(200000+int64(i)*10, 0))
+			hist = append(hist, st.what)
+			for _, page := range []string{"pages/p.vuego", "docs/d.vuego"} {
+				render := func(t vuego.Template) string {
+					var buf bytes.Buffer
+					var err error
+					if entry == "RenderFile" {
+						err = t.New().RenderFile(context.Background(), &buf, page)
+					} else {
+						err = t.New().Load(page).Render(context.Background(), &buf)
+					}
+					return strings.Join(strings.Fields(buf.String()), "") + "|err=" + fmt.Sprint(err)
+				}
+				got, want := render(long), render(vuego.NewFS(m))
+				r.Eval(fmt.Sprintf("layout-resolution:%s:%d:%s", entry, i, page), i > 0, nil)
+				r.Count("stream:layout-resolution(oracle only)")
+				if got != want {
+					r.Fail("a long-lived engine resolves a layout name differently from a new engine over the same files", map[string]string{"oracle": "layout-resolution", "entry": entry},
+						map[string]any{"history": append([]string{}, hist...), "page": page, "long_lived": got, "new_engine": want})
+				}
+			}
+		}
+	}
+}
+
 func init() { streams["C15"] = runC15 }
 
 func runC15(r *Run) {
+	c15LayoutResolution(r)
 	r.Imports = []string{"Model.Cache"}
 	r.Rule("histories of {edit page/component/layout with a new version and an mtime that advances, stays equal, goes backwards or is zero; delete; recreate; make invalid (bad front-matter); " +
 		"render via Vue.Render, Vue.RenderFragment, Load().Render, RenderFile, with a named layout, without any, and with the default layouts/base.vuego being created, edited and deleted between renders} on one long-lived engine over an in-memory FS; " +
